@@ -435,4 +435,75 @@ Proof.
     specialize (H eq_refl). discriminate H.
   - specialize (H (ex "b") [ex "C"] (or_intror (or_introl eq_refl)) (or_introl eq_refl)). vm_compute in H.
     specialize (H eq_refl). discriminate H.
+(** ** SHAPE-MAP runs ([Model.RunMap.run_shapes_map]).  [I] is the dictionary
+    C10's tracker model returns ([node -> keys], a key being a class IRI or a
+    label [<iri>]); no hypothesis on it, on the specification or on the
+    oracles.  [key_passes_occ_g]: as [key_passes_occ], the value class read
+    with the instantiation property as ClassShexer holds it ([tau_shaper]),
+    the counts with the profiler's ([Selectors.tau_of]) -- the two differ only
+    when the user wrote the property between '<' '>'.
+    - [C02_map_keys_iff_occ] (remove_empty_shapes off): one shape per key of
+      the dictionary (requested classes first, then labels / classes in
+      first-occurrence order), key present iff it passes;
+    - [C02_map_keys_remove] (on): soundness only.  The converse is FALSE:
+      [C02_removed_reference_run_refuted] (finding C02-F2, same root cause as
+      C12-F2): a constraint whose chosen alternative refers to a shape that
+      ends up empty is deleted outright. *)
+From Shexer Require Import Model.RunMap Proofs.RunMapProofs Proofs.RunMapWitness.
+From Shexer Require Model.Selectors.
+
+Theorem C02_map_keys_iff_occ : forall fa c orc sp thr g ns shapes,
+  r_remove_empty c = false -> run_shapes_map fa c orc sp thr g = inl (ns, shapes) ->
+  exists I targets,
+    Selectors.run orc sp g = Selectors.OOk I /\ prof_targets orc sp = Selectors.Ok targets /\
+    map sh_class shapes = class_keys (targets_of (pcfg_map c orc sp targets)) I /\
+    forall sh, In sh shapes ->
+      sh_n sh = class_count I (sh_class sh) /\
+      (forall inv p vc, In (inv, p, vc) (map (skey (scfg_map c sp ns)) (sh_stmts sh)) <->
+                        key_passes_occ_g fa (tau_shaper sp) (Selectors.tau_of sp) (r_inverse c) thr I g
+                                         (sh_class sh) inv p vc) /\
+      (tau_shaper sp = Selectors.tau_of sp -> no_nonliteral_datatype g ->
+       NoDup (map (skey (scfg_map c sp ns)) (sh_stmts sh))).
+Proof. exact map_keys_iff_occ. Qed.
+Print Assumptions C02_map_keys_iff_occ.
+
+Theorem C02_map_keys_remove : forall fa c orc sp thr g ns shapes,
+  r_remove_empty c = true -> run_shapes_map fa c orc sp thr g = inl (ns, shapes) ->
+  exists I targets,
+    Selectors.run orc sp g = Selectors.OOk I /\ prof_targets orc sp = Selectors.Ok targets /\
+    forall sh, In sh shapes ->
+      In (sh_class sh) (class_keys (targets_of (pcfg_map c orc sp targets)) I) /\
+      sh_n sh = class_count I (sh_class sh) /\ sh_stmts sh <> [] /\
+      (forall inv p vc, In (inv, p, vc) (map (skey (scfg_map c sp ns)) (sh_stmts sh)) ->
+                        key_passes_occ_g fa (tau_shaper sp) (Selectors.tau_of sp) (r_inverse c) thr I g
+                                         (sh_class sh) inv p vc) /\
+      (tau_shaper sp = Selectors.tau_of sp -> no_nonliteral_datatype g ->
+       NoDup (map (skey (scfg_map c sp ns)) (sh_stmts sh))).
+Proof. exact map_keys_remove. Qed.
+Print Assumptions C02_map_keys_remove.
+
+(** non-vacuity of the first: remove_empty_shapes off, threshold 1/3: both shapes, both keys of S *)
+Example C02_map_nonvacuous :
+  map_keys (with_remove false (with_kls false base_rcfg)) (b_ratio 1 3) =
+  Some [(lab_S, [(false, ex "name", VLit c_STRING_TYPE); (false, ex "p", VNonLit)]); (lab_T, [])].
+Proof. exact m_keys_third_keep. Qed.
+
+(** C02-F2: remove_empty_shapes on, threshold 1/3: two of the three instances
+    of S have an IRI value of ex:p (2/3 >= 1/3), yet S has no constraint for
+    (ex:p, non-literal): the reference to T (1/3) had won the merge and went
+    with T.  The real Shaper prints the same shape on this input (pinned
+    reproducer of the finding). *)
+Lemma C02_removed_reference_run_refuted :
+  exists c orc sp g thr ns shapes I sh p,
+    r_remove_empty c = true /\ run_shapes_map BAlg c orc sp thr g = inl (ns, shapes) /\
+    Selectors.run orc sp g = Selectors.OOk I /\ In sh shapes /\
+    key_passes_occ_g BAlg (tau_shaper sp) (Selectors.tau_of sp) (r_inverse c) thr I g (sh_class sh) false p VNonLit /\
+    ~ In (false, p, VNonLit) (map (skey (scfg_map c sp ns)) (sh_stmts sh)).
+Proof.
+  exists (with_kls false base_rcfg), m_orc, m_spec, m_graph, (b_ratio 1 3).
+  eexists. eexists. eexists. eexists. exists (ex "p").
+  split; [reflexivity|]. split; [vm_compute; reflexivity|]. split; [vm_compute; reflexivity|].
+  split; [left; reflexivity|]. split.
+  - split; [discriminate|]. exists c_IRI_ELEM_TYPE, CKplus. vm_compute. repeat split; reflexivity.
+  - vm_compute. intros [H|[]]. discriminate H.
 Qed.
